@@ -25,6 +25,7 @@ func runC02(c *Ctx) {
 	R.Rules["E3.cover"] = "each of the four header layouts has a successful path"
 	R.Rules["E3.reject"] = "every error return of Header.decode is justified: the data is shorter than the header the property word announces"
 	R.Rules["E3.accept"] = "every successful return of JTMessage.Decode entails: both delimiters present, the checksum over the whole unescaped payload is zero, the payload is exactly header + declared body length + 1, Body is that window and VerifyCode the byte after it"
+	R.Rules["E4.own-payload"] = "on every successful return of JTMessage.Decode the Body shares its backing array with no buffer that is handed back to a sync.Pool or truncated and refilled: 'the body equals what the layout prescribes for those bytes' stays true when the next frame is decoded"
 	R.Rules["E2.field"] = "history independence of the header decoder (see C03)"
 	R.Rules["E2.branch"] = "history independence of the header decoder (see C03)"
 	var spec LayoutSpec
@@ -180,6 +181,16 @@ func runC02(c *Ctx) {
 				}
 			}
 		}
+		// the decoded body (and with it the phone bytes, windows of the same payload) is storage of this message alone
+		okOwn, whyOwn := true, ""
+		if body != nil {
+			for id, b := range absint.AliasClosure(body.Base) {
+				if why, reused := ja.Reused[id]; reused {
+					okOwn, whyOwn = false, fmt.Sprintf("the Body of a decoded message shares its backing array with %s: %s - the next frame that is decoded rewrites the fields of this one", b.Desc, why)
+				}
+			}
+		}
+		lr2.set("E4.own-payload", dname+" / the unescaped payload a message's Body and phone are windows of is not a pooled or re-used buffer", okOwn, whyOwn)
 		lr2.set("E3.accept", dname+" / payload length = header + declared body + 1", okLen, "success reachable without len(unescaped) == headEnd + BodyDayaLen + 1 with Body that window; path "+trace)
 		lr2.set("E3.accept", dname+" / VerifyCode is the byte after the body", okVC, "VerifyCode is not the payload byte following the body; path "+trace)
 		lr2.set("E3.accept", dname+" / checksum over whole payload is zero", okSum, "success reachable without CreateVerifyCode(whole unescaped payload) == 0; path "+trace)
